@@ -715,11 +715,12 @@ func c19Large(n, l int, mixed bool, saslMech string, extraAdv, extraWanted int, 
 func init() {
 	Register(&Prop{
 		ID:   "C19",
-		Rule: "family small-universe: full product wanted W ⊆ {a,b,zz,sasl} × SASL {none, PLAIN(u,p), EXTERNAL(\"\")} × advertised A ⊆ {a,b,sasl,zz} × reply to CAP REQ {ACK all, NAK, ACK in two lines, ACK then an unsolicited ACK :-a, ACK in reversed order} × SASL continuation {AUTHENTICATE + then 903; + then 904; 908 then 904; 904 at once} = 6144 scripts (thorough: × server lines one per segment / one segment per reaction × late / immediate ACK :-a × advertised order forward / reversed), one session each against a reactive model server; family unsolicited-plus: W × SASL {none, PLAIN, EXTERNAL, a mechanism whose Start fails} × A × reply {ACK, NAK, ACK in two lines} × an AUTHENTICATE + nobody asked for {before the reply to CAP REQ (after LS when nothing is requested), after the negotiation}; family late-lines: after the negotiation every sequence of up to 2 (thorough 3) further server lines over {ACK :-a, ACK :a, NAK :a, NAK :-a, NAK :a zz, ACK :-a b, NAK :-a -b, ACK :-zz, ACK :-sasl, NAK :-sasl}, HasCapability compared after each and a CAP END demanded after each (they are NAKs and ACKs that do not start SASL), after a completed SASL exchange and after one refused with 908 + 904 before the server asked for data (W ∈ {{a,b},{a,b,zz,sasl}} quick, all 16 thorough); family large-sets: wanted = advertised sets of N capabilities with L-byte names (quick N ∈ {10,30,60}, L ∈ {10,40}; thorough N = 1..80, L ∈ {3..200} and mixed) × SASL × extra advertised / extra wanted names, every CAP REQ line ACKed (or NAKed); a case is one session; distinct = distinct (configuration, full client/server transcript)",
+		Rule: "family small-universe: full product wanted W ⊆ {a,b,zz,sasl} × SASL {none, PLAIN(u,p), EXTERNAL(\"\")} × advertised A ⊆ {a,b,sasl,zz} × reply to CAP REQ {ACK all, NAK, ACK in two lines, ACK then an unsolicited ACK :-a, ACK in reversed order} × SASL continuation {AUTHENTICATE + then 903; + then 904; 908 then 904; 904 at once} = 6144 scripts (thorough: × server lines one per segment / one segment per reaction × late / immediate ACK :-a × advertised order forward / reversed), one session each against a reactive model server; family unsolicited-plus: W × SASL {none, PLAIN, EXTERNAL, a mechanism whose Start fails} × A × reply {ACK, NAK, ACK in two lines} × an AUTHENTICATE + nobody asked for {before the reply to CAP REQ (after LS when nothing is requested), after the negotiation}; family late-lines: after the negotiation every sequence of up to 2 (thorough 3) further server lines over {ACK :-a, ACK :a, NAK :a, NAK :-a, NAK :a zz, ACK :-a b, NAK :-a -b, ACK :-zz, ACK :-sasl, NAK :-sasl}, HasCapability compared after each and a CAP END demanded after each (they are NAKs and ACKs that do not start SASL), after a completed SASL exchange and after one refused with 908 + 904 before the server asked for data (W ∈ {{a,b},{a,b,zz,sasl}} quick, all 16 thorough); family reconnect: the same client negotiates twice in one session (W ∈ 3 sets quick / all 16 thorough × SASL × first advertised set × second advertised set × first reply ACK / NAK × first SASL outcome 903 / 904), the second negotiation judged like the first against what the second server advertises; family large-sets: wanted = advertised sets of N capabilities with L-byte names (quick N ∈ {10,30,60}, L ∈ {10,40}; thorough N = 1..80, L ∈ {3..200} and mixed) × SASL × extra advertised / extra wanted names, every CAP REQ line ACKed (or NAKed); a case is one session; distinct = distinct (configuration, full client/server transcript)",
 		Assumptions: []string{
 			"single-line CAP LS replies (CAP 3.1); multi-line LS (\"CAP * LS * :\") is outside the statement's quantifier",
 			"the server acknowledges exactly the names of the REQ line it answers (or a split of them); it never acknowledges names that were not requested except the scripted ACK :-a",
 			"CAP END demands are 'at least one CAP END at or after the event'; repeats are counted, not judged",
+			"what HasCapability answers between a reconnect and the new server's first acknowledgement is left open by the statement: the client's answers at that point are the baseline of the second negotiation",
 		},
 		Jobs: func(tier string) []Job {
 			var jobs []Job
